@@ -219,7 +219,34 @@ func runPressure(seed uint64, idx int) (in sx.V, out sx.V, tags []string) {
 	steps := r.Range(6, 30)
 	scenario := r.Intn(5) // 4: a client that never reads sends garbage at the end
 	for i := 0; i < steps && ok; i++ {
-		switch r.Intn(12) {
+		switch r.Intn(13) {
+		case 12:
+			// every pending request is answered while the client reads nothing (its replies pile up in the
+			// ring and the overflow list); the client then reads a little - one writable event drains part
+			// of the backlog - and sends a request the proxy answers itself: that reply goes through the
+			// direct write path and must queue up behind the backlog
+			c := r.Intn(nc)
+			if !(scenario == 4 && c == 0) {
+				for round := 0; round < 4 && ok; round++ {
+					ok = w.tasks()
+					for _, p := range w.s.Backends {
+						if ok {
+							ok = w.drain(p, 1<<16)
+						}
+						if ok {
+							ok = w.answerRead(p, 1000)
+						}
+					}
+				}
+				if ok {
+					ok = w.drain(w.s.Clients[c], r.Range(1000, 30000))
+				}
+				if ok {
+					w.reqSeq[c]++
+					ok = w.send(c, []byte("*1\r\n$4\r\nPING\r\n"))
+				}
+				tagset["local-reply-behind-backlog"] = true
+			}
 		case 0, 1, 2, 3, 4:
 			c := r.Intn(nc)
 			var b []byte
@@ -401,6 +428,9 @@ func suitePressure(c *Ctx) {
 		n = 1500
 	}
 	for i := 0; i < n && !loopWedged; i++ {
+		if !c.Begin("pressure", i) {
+			continue
+		}
 		var in, out sx.V
 		var tags []string
 		o := Safe(func() sx.V { in, out, tags = runPressure(c.Seed, i); return out })
